@@ -24,8 +24,11 @@ class ClassInfo:
 
 
 class Model:
-    def __init__(self, repo=None):
+    def __init__(self, repo=None, normalize=True):
         self.repo = pathlib.Path(repo or REPO)
+        self.norm_log = {}
+        from . import normalize as NZ
+        vocab = NZ.load_vocab() if normalize else None
         self.sources = {}
         self.trees = {}
         self.classes = {}
@@ -44,6 +47,13 @@ class Model:
                 except SyntaxError as ex:
                     raise AnalysisError("cannot parse %s: %s" % (rel, ex))
                 self.sources[rel] = src
+                if vocab:
+                    try:
+                        log = NZ.normalize_tree(rel, tree, vocab)
+                    except RecursionError:
+                        log = ["normalisation skipped (recursion)"]
+                    if log:
+                        self.norm_log[rel] = log
                 self.trees[rel] = tree
                 for n in ast.walk(tree):
                     for c in ast.iter_child_nodes(n):
